@@ -260,6 +260,9 @@ def gen_op(rng, st, exact):
         ref = [S(num()) for _ in range(nd)]
     if kind == "translate":
         v = [S(num()) for _ in range(nd)]
+        if rng.random() < 0.3:
+            # whole cells: subregions left behind would still pass the setter
+            v = [S(rng.randint(-2, 2) * (c_ if exact else float(c_))) for c_ in cellq(st)]
         if rng.random() < 0.08:
             v = v + [S(1)]
         return dict(op="translate", v=v)
@@ -697,6 +700,13 @@ def run_case(c):
             after = snap_subs(mesh)
             if after != held:
                 rec["oracle"].append("failed-transformation-changed-subregions")
+            # a valid operation on a valid mesh must go through (in the copying form the transformed
+            # subregions are validated again: only claimed where rounding cannot reach the 1e-12 test)
+            want = transform_boxes(st, c, held)
+            if want is not None:
+                big = max([abs(v) for _, a_, b_ in want for v in a_ + b_] + [maxabs(st)])
+                if exact or big * F(1, 2 ** 49) <= ALIGN_TOL / 4:
+                    rec["oracle"].append("valid-transformation-rejected")
         rec["tags"] = tags_abs
         rec["oracle"] = sorted(set(rec["oracle"]))
         rec.update(obs=dict(status=st_, mesh=obs),
@@ -899,6 +909,8 @@ def transform_boxes(st, c, held):
             a_, b_ = [x + y for x, y in zip(smin, v)], [x + y for x, y in zip(smax, v)]
         elif c["op"] == "scale":
             f = Fs(c["f"])
+            if any(k == 0 for k in f) or len(ref) != nd:
+                return None
             a_ = [r - (r - x) * k for r, x, k in zip(ref, smin, f)]
             b_ = [r - (r - x) * k for r, x, k in zip(ref, smax, f)]
         else:
